@@ -153,8 +153,9 @@ func (j *c06job) runSeq() {
 				// nothing about the depth of the proof, so the work-bounded exhaustive check does not apply
 				one.work = 1 << 30
 			}
-			one.judge(fmt.Sprintf("%s (call %d of the sequence)", in, i+1), r, att, l1)
+			one.judge(fmt.Sprintf("@SEQ@ (call %d of the sequence)", i+1), r, att, l1)
 			for _, f := range one.out {
+				f = strings.Replace(f, "@SEQ@", in, 1)
 				// the same position on a fresh solver
 				fresh := &c06job{kind: "dfpn", root: p, g: j.seqG[i], entries: j.entries, attacker: j.attacker, stats: map[string]int64{}}
 				fr, fst := prove.NewDFPN(&prove.DFPNConfig{Attacker: j.attacker, TableMem: int64(j.entries) * c06EntrySize}).Prove(p)
@@ -827,6 +828,140 @@ func runC06(c *ctx) {
 		j.root = j.seq[0]
 		jobs = append(jobs, j)
 	}
+
+	// TWIN streams: one solver, two positions of the SAME game that differ only in the kind of one top piece (capstone
+	// <-> wall), in both orders: anything the solver keeps per position besides the hash-keyed table (memoised threat
+	// answers, killers, pooled positions) must not carry over from one twin to the other.
+	twinStreams := 0
+	for gi, g := range graphs {
+		if specs[gi].cfg.Capstones == 0 || len(g.sample) == 0 {
+			continue
+		}
+		tried := 0
+		for twinStreams < 120*c.scale*(gi+1) && tried < 40000*c.scale {
+			tried++
+			p := g.sample[c.r.Intn(len(g.sample))]
+			if p.Caps == 0 && p.Standing == 0 {
+				continue
+			}
+			b := boardOf(p)
+			var cand [][2]int
+			for y := range b {
+				for x := range b[y] {
+					if len(b[y][x]) > 0 && b[y][x][0].Kind() != tak.Flat {
+						cand = append(cand, [2]int{x, y})
+					}
+				}
+			}
+			if len(cand) == 0 {
+				continue
+			}
+			sq := cand[c.r.Intn(len(cand))]
+			top := b[sq[1]][sq[0]][0]
+			nk := tak.Capstone
+			if top.Kind() == tak.Capstone {
+				nk = tak.Standing
+			}
+			b[sq[1]][sq[0]][0] = tak.MakePiece(top.Color(), nk)
+			q, err := tak.FromSquares(specs[gi].cfg, b, p.MoveNumber())
+			if err != nil || g.lookup(q) < 0 {
+				continue // the twin is not a position of this game (reserves)
+			}
+			if over, _ := q.GameOver(); over {
+				continue
+			}
+			j := &c06job{kind: "dfpnseq", modelOK: twinStreams%6 == 0}
+			j.entries = []int{64, 1024, 1 << 16}[c.r.Intn(3)]
+			switch c.r.Intn(3) {
+			case 0:
+				j.attacker = tak.White
+			case 1:
+				j.attacker = tak.Black
+			}
+			seqs := [][]*tak.Position{{p, q}, {q, p}, {p, q, p}, {q, p, q}}
+			j.seq = seqs[c.r.Intn(len(seqs))]
+			for range j.seq {
+				j.seqG = append(j.seqG, g)
+			}
+			j.root = j.seq[0]
+			jobs = append(jobs, j)
+			twinStreams++
+		}
+	}
+	c.stat("twin_streams", int64(twinStreams))
+
+	// LONG-LIVED solver: a search, then hundreds of calls that each force the solver to forget its storage (finished
+	// games of another board size with alternating sides to move: nothing is searched, but attacker or size differ from
+	// the previous call every time), then a search of a neighbouring position of the first game with the other attacker.
+	// The number of forgotten generations in between straddles 256 and 512: whatever stands in for "wipe the table"
+	// must not let entries of an earlier generation come back.
+	longStreams := 0
+	if len(graphs) > 4 && len(graphs[4].finished) > 0 {
+		var finW, finB []*tak.Position
+		for _, f := range graphs[4].finished {
+			if f.ToMove() == tak.White {
+				finW = append(finW, f)
+			} else {
+				finB = append(finB, f)
+			}
+		}
+		for _, gi := range []int{0, 2} {
+			g := graphs[gi]
+			if len(g.sample) == 0 || len(finW) == 0 || len(finB) == 0 {
+				continue
+			}
+			pairs := 0
+			for tries := 0; pairs < 4*c.scale && tries < 20000; tries++ {
+				par := g.sample[c.r.Intn(len(g.sample))]
+				ms := par.AllMoves(nil)
+				ch, err := par.Move(ms[c.r.Intn(len(ms))])
+				if err != nil {
+					continue
+				}
+				if over, _ := ch.GameOver(); over {
+					continue
+				}
+				// undecided for both sides at both positions: every stored bound is a "no win", which means the opposite for
+				// the other attacker
+				if tries < 10000 {
+					wW, _, _ := g.wins(par, tak.White)
+					wB, _, _ := g.wins(par, tak.Black)
+					cW, _, _ := g.wins(ch, tak.White)
+					cB, _, _ := g.wins(ch, tak.Black)
+					if wW || wB || cW || cB {
+						continue
+					}
+				}
+				pairs++
+				for _, gap := range []int{253, 254, 255, 256, 257, 509, 510, 511, 512, 513} {
+					for order := 0; order < 2; order++ {
+						first, second := ch, par
+						if order == 1 {
+							first, second = par, ch
+						}
+						j := &c06job{kind: "dfpnseq", modelOK: longStreams%20 == 0}
+						j.entries = 1024
+						j.seq = append(j.seq, first)
+						j.seqG = append(j.seqG, g)
+						for k := 0; k < gap; k++ {
+							f := finW[c.r.Intn(len(finW))]
+							if k%2 == 1 {
+								f = finB[c.r.Intn(len(finB))]
+							}
+							j.seq = append(j.seq, f)
+							j.seqG = append(j.seqG, graphs[4])
+						}
+						j.seq = append(j.seq, second)
+						j.seqG = append(j.seqG, g)
+						j.root = j.seq[0]
+						jobs = append(jobs, j)
+						longStreams++
+					}
+				}
+			}
+		}
+	}
+	c.stat("long_lived_solver_streams", int64(longStreams))
 
 	c06runJobs(c, jobs)
 
